@@ -142,6 +142,21 @@ def value(tn, out):
     return v * 10.0 ** float(tn.exponent)
 
 
+def value_gauged(tn, gauges, out):
+    """value of (network, bond gauges): diag(g) inserted on every listed bond (multiplied into one carrier, in numpy)"""
+    arrs = [(np.array(a, dtype=np.complex128), list(i)) for a, i in tn_tensors(tn)]
+    for ix, g in gauges.items():
+        g = np.asarray(g, dtype=np.complex128)
+        for a, inds in arrs:
+            if ix in inds:
+                ax = inds.index(ix)
+                sh = [1] * a.ndim
+                sh[ax] = g.size
+                a *= g.reshape(sh)
+                break
+    return einsum_value([(a, tuple(i)) for a, i in arrs], out) * 10.0 ** float(tn.exponent)
+
+
 def magnitude(tn):
     m = 10.0 ** float(tn.exponent)
     for a, _ in tn_tensors(tn):
@@ -221,7 +236,7 @@ GAUGE_OPS = ["canonize_bond", "compress_bond", "balance_bond", "fuse_squeeze", "
              "canonize_around", "gauge_all_canonize", "gauge_all_simple", "gauge_simple_roundtrip", "gauge_all_random",
              "gauge_all_bp", "gauge_local", "insert_gauge", "strip_exponent", "equalize_norms", "equalize_norms_v",
              "distribute_exponent", "balance_bonds", "fuse_multibonds", "squeeze", "expand_bond", "compress_all", "compress_all_tree",
-             "compress_all_simple", "compress_all_1d", "isometrize_one", "conj_conj", "astype", "multiply"]
+             "compress_all_simple", "compress_all_1d", "isometrize_one", "conj_conj", "astype", "multiply", "fuse_gauged"]
 
 
 @st.composite
@@ -243,6 +258,19 @@ def s_gauge(draw, tier):
             "cplx": draw(st.booleans()), "exponent": draw(st.sampled_from([0.0, 0.0, 2.0, -1.0])),
             "kinds": [draw(st.sampled_from(["gauss", "gauss", "gauss", "pos", "lowrank"])) for _ in range(n)],
             "ops": [list(o) for o in ops]}
+
+
+@st.composite
+def s_fuse_gauged(draw, tier):
+    """graphs that always carry 1-3 multibonds (double or triple), and only the gauged fusing rewrite"""
+    case = draw(s_gauge(tier))
+    base = [e for e in case["edges"]]
+    nm = draw(st.integers(1, 3))
+    extra = [list(draw(st.sampled_from(base))) for _ in range(nm)]
+    case["edges"] = base + extra
+    case["bdims"] = case["bdims"] + [draw(st.sampled_from([2, 2, 3])) for _ in extra]
+    case["ops"] = [["fuse_gauged", draw(st.integers(0, 10**6))] for _ in range(draw(st.integers(1, 2)))]
+    return case
 
 
 def build_graph(case):
@@ -484,6 +512,35 @@ def run_gauge(case):
                 prod_multi = max_before ** 2 if multibond else max_before
                 if mx > prod_multi:
                     raise Violation("compress-grew-bond", op=name, before=max_before, after=mx)
+        elif name == "fuse_gauged":
+            # a network *with a dictionary of bond gauges* denotes the network with diag(g) inserted on each listed bond;
+            # fusing (multi)bonds must keep that denotation and re-key the dictionary, whatever part of the bonds it covers
+            bonds = sorted(ix for ix, tids in tn.ind_map.items() if len(tids) == 2 and not ix.startswith("k"))
+            if not bonds:
+                raise Reject("no bonds")
+            rng = np.random.default_rng(k)
+            cover = [ix for ix in bonds if rng.random() < 0.6]
+            gauges = {ix: rng.uniform(0.3, 2.0, size=tn.ind_size(ix)) for ix in cover}
+            tg = tn.copy()
+            ref_g = value_gauged(tg, gauges, out)
+            mag_g = magnitude(tg) * float(np.prod([np.linalg.norm(g) for g in gauges.values()] or [1.0]))
+            if (k // 2) % 2 == 0 or not shared:
+                tg.fuse_multibonds_(gauges=gauges)
+                via = "fuse_multibonds"
+            else:
+                tc.tensor_fuse_squeeze(tg[t1], tg[t2], squeeze=bool((k // 4) % 2), gauges=gauges)
+                via = "tensor_fuse_squeeze"
+            dead = sorted(ix for ix in gauges if ix not in tg.ind_map)
+            if dead:
+                raise Violation("gauge-under-dead-label", via=via, n=len(dead), partial=len(cover) < len(bonds))
+            for ix, g in gauges.items():
+                if np.size(g) != tg.ind_size(ix):
+                    raise Violation("gauge-size-mismatch", via=via, partial=len(cover) < len(bonds))
+            eg = rel_err(value_gauged(tg, gauges, out), ref_g, floor=mag_g)
+            if not eg <= tol:
+                raise Violation("value", op=name, via=via, err=eg, partial=len(cover) < len(bonds), multibond=multibond)
+            if multibond and cover:
+                fired.append(name)
         elif name == "isometrize_one":
             # not value preserving by definition: skipped
             raise Reject("isometrize changes the tensor by definition")
@@ -570,6 +627,10 @@ SUBCHECKS = [
     SubCheck("gauge", run_gauge, s_gauge, examples=(150, 2500), shards=(6, 12),
              rule="tree/loopy graph networks x composed gauge/canonize/norm/bond/compress rewrites; value over dangling legs unchanged, "
                   "promised forms hold; nt: >=3 tensors and a rewrite changed something"),
+    SubCheck("fuse_gauged", run_gauge, s_fuse_gauged, examples=(100, 2000), shards=(2, 6),
+             rule="graphs with 1-3 double/triple bonds x a dictionary of random positive bond gauges covering a random part of the "
+                  "bonds x fuse_multibonds(gauges=) / tensor_fuse_squeeze(gauges=): (network, gauges) denotes the same tensor, no "
+                  "gauge is left under a dead label or with a wrong size; nt: a multibond and at least one gauge"),
     SubCheck("lattice_simplify", run_lattice, s_lattice, examples=(80, 1500), shards=(2, 6),
              rule="2-3 x 2-5 lattices of product / low-rank tensors (many adjacent loops and pairs) x one simplification pass, both "
                   "spellings; nt: the pass changed the network"),
